@@ -26,6 +26,9 @@ def build_harness():
         fcntl.flock(lf, fcntl.LOCK_EX)
         p = subprocess.run(["cargo", "build", "--offline"], cwd=HARNESS, env=env,
                            stdout=subprocess.PIPE, stderr=subprocess.STDOUT, text=True)
+        if p.returncode == 0:
+            import execpool
+            execpool.use_private_copy()       # under the build lock: the copy is the binary of THIS build
     if p.returncode != 0:
         sys.stdout.write(p.stdout[-6000:])
         raise ToolError("harness build failed (does /repo still compile?)")
